@@ -232,6 +232,8 @@ def canon(v, _stack=None):
         return ("str", v)
     if isinstance(v, bytes):
         return ("bytes", v)
+    if isinstance(v, slice):
+        return ("slice", canon(v.start), canon(v.stop), canon(v.step))
     if isinstance(v, np.generic):
         return ("npscalar", v.dtype.str, canon(v.item()) if v.dtype.kind not in "mM" else int(v.view("i8")))
     for i, s in enumerate(_stack):
